@@ -74,4 +74,5 @@ package blockchain
 
 // Two-state facts used in the contracts of unknown code: block stores stay content-addressed
 // and only grow (existing entries are kept).
+//@ pred entrieskept() = forall c *Blockchain, h hotstuff.Hash :: old(has(c.blocks, h)) ==> has(c.blocks, h) && c.blocks[h] == old(c.blocks[h])
 //@ pred storeskept() = (forall c *Blockchain :: old(binv(c)) ==> binv(c)) && (forall c *Blockchain :: old(bmaps(c)) ==> bmaps(c)) && (forall c *Blockchain, h hotstuff.Hash :: old(has(c.blocks, h)) ==> has(c.blocks, h) && c.blocks[h] == old(c.blocks[h]))
